@@ -166,7 +166,9 @@ func textAnn() model.AnnotationRenderer {
 func layoutOps() []layoutOp {
 	return []layoutOp{
 		{name: "optimize", run: func(i, o string, c *model.Configuration, w *layoutWork) error { return api.OptimizeFile(i, o, c) }},
-		{name: "rotate", run: func(i, o string, c *model.Configuration, w *layoutWork) error { return api.RotateFile(i, o, 90, nil, c) }},
+		{name: "rotate", run: func(i, o string, c *model.Configuration, w *layoutWork) error {
+			return api.RotateFile(i, o, 90, nil, c)
+		}},
 		{name: "watermark", run: func(i, o string, c *model.Configuration, w *layoutWork) error {
 			return api.AddTextWatermarksFile(i, o, nil, true, "Draft", "scale:0.5, op:0.4", c)
 		}},
@@ -186,7 +188,9 @@ func layoutOps() []layoutOp {
 			}
 			return api.AddAnnotationsFile(o, "", []string{"1"}, textAnn(), c, true)
 		}},
-		{name: "trim", run: func(i, o string, c *model.Configuration, w *layoutWork) error { return api.TrimFile(i, o, []string{"1"}, c) }},
+		{name: "trim", run: func(i, o string, c *model.Configuration, w *layoutWork) error {
+			return api.TrimFile(i, o, []string{"1"}, c)
+		}},
 		{name: "bookmarks", run: func(i, o string, c *model.Configuration, w *layoutWork) error {
 			return api.AddBookmarksFile(i, o, []pdfcpu.Bookmark{{PageFrom: 1, Title: "One"}}, true, c)
 		}},
@@ -300,8 +304,8 @@ func layoutCmd() {
 		if len(r.Secs) > 0 && r.Secs[0].Kind == "table" {
 			stats["xreftable"]++
 		}
-		for _, t := range r.ET[1:] {
-			if t == 0 {
+		for i, t := range r.ET {
+			if i > 0 && t == 0 {
 				stats["freeentries"]++
 			}
 		}
